@@ -18,7 +18,9 @@ RULE = ("requests are drawn from VERIF_SEED plus fixed special families (coordin
         "axis lengths over the whole double range 1e-323..1e300 incl. subnormal components, 1.7e308 along z, and lengths within "
         "1e-10..5e-7 of one; angles at multiples of pi/2, theta at and within 1e-12 of the poles); a case is non-trivial when the model "
         "answers ok/err and is counted once per distinct (op, axis class, angle class, length decade, branch) key")
-CORR_ONLY = ["Angle (an observation point, not part of the statement): acos is applied on the comparison side (mpmath) to the model's cosine; "
+CORR_ONLY = ["class D (history independence): the axis object is produced by 9 histories (constructor, shrinking Resize, Resize down and up, Assign, operator=, copy of a shrunk vector, slice, growing Resize, arithmetic on a shrunk vector); results must be bit-identical to the directly constructed axis "
+             "(theorems VecObj.*_wf, norm_history_independent, axisHistory_value)",
+             "Angle (an observation point, not part of the statement): acos is applied on the comparison side (mpmath) to the model's cosine; "
              "only pairs at angles in [1e-3, pi-1e-3] and lengths 1e-6..1e6 (v1*v2 is an unscaled dot product; parallel pairs give NaN: observed, outside the property)",
              "cos/sin/sqrt/hypot of libm are compared with mpmath values (320 bits) of the same double argument",
              "Spherical_Coordinates about an axis whose unit-vector transverse length is below 2^-1000: only the property clauses (norm, polar angle, "
@@ -323,6 +325,22 @@ def generate(tier, seed, ctx):
     for k in range(1200 if thorough else 200):
         a = rand_angle(rng, rng.randrange(8))
         R.append("c16.rot3 %s %s %s" % (hx(a), cs_tokens(a), v3(tilt_axis(rng, k))))
+    # --- the axis as an object with a history (class D): same three components reached by different object histories --------
+    for g in range(60 if thorough else 12):
+        ax, cl = rand_axis(rng, g) if g % 3 else (tilt_axis(rng, g), "tilt")
+        if not any(ax):
+            ax = [1.0, 2.0, 2.0]
+        big = max(abs(x) for x in ax)
+        ex = [big * rng.choice([-1.0, 1.0]) * rng.uniform(0.5, 4.0) for _ in range(rng.randint(1, 3))]
+        if g % 4 == 0:
+            ax, ex = [1.0, 2.0, 2.0], [4.0]
+        alpha = rand_angle(rng, rng.randrange(8))
+        r, th, ph = rand_r(rng, rng.randrange(4)), rng.uniform(0.05, math.pi - 0.05), rand_phi(rng, rng.randrange(9))
+        for kind in range(9):
+            R.append("c16.rot3h %s %s %s %d %s" % (hx(alpha), cs_tokens(alpha), v3(ax), kind, lst(ex)))
+            groups.setdefault(("hist3", g), {})[kind] = R[-1]
+            R.append("c16.sphaxh %s %s %s %s %s %s %d %s" % (hx(r), hx(th), hx(ph), cs_tokens(th), cs_tokens(ph), v3(ax), kind, lst(ex)))
+            groups.setdefault(("hists", g), {})[kind] = R[-1]
     # --- Angle -----------------------------------------------------------------------------------------
     for k in range(600 if thorough else 150):
         n = 3 if k % 3 else rng.randint(1, 6)
@@ -423,6 +441,15 @@ def compare(rq, impl, model, ctx):
     a = rq.split()[1:]
     bump(ctx, op)
     ctx.setdefault("c16_results", {})[rq] = impl
+    if op in ("c16.rot3h", "c16.sphaxh"):
+        # the axis object was produced by a history (harness: axis_with_history); its value is the three components:
+        # judged exactly like the plain op, the bit-for-bit comparison across histories is done in finalize (class D)
+        nb = 6 if op == "c16.rot3h" else 10
+        bump(ctx, "history.kind%s" % a[nb])
+        a = a[:nb]
+        op = op[:-1]
+        if "history" in toks(impl):
+            return [fail("corr", "harness: the history did not produce the requested axis value", impl[:200])]
     fs, both = std_outcome(rq, impl, model)
     if tag(model) in ("ok", "err"):
         ctx["nontrivial"].add(_key(op, a, model))
@@ -632,6 +659,22 @@ def finalize(ctx, exe):
             if dev > K_COMP * EPSF:
                 out.append(dict(fail("prop", "Rotation_Matrix(%dD): R(a1) R(a2) != R(a1+a2) about the same axis" % n,
                                      "dev=%s; a2 request: %s" % (mp.nstr(dev, 5), d[1][:120])), req=d[0], impl=ctx["c16_results"].get(d[0], "")))
+        elif kind in ("hist3", "hists"):
+            base = ctx.get("c16_results", {}).get(d.get(0, ""), None)
+            if base is None or tag(base) != "ok":
+                continue
+            ctx["nontrivial"].add((kind, g % 10))
+            for k in sorted(d):
+                other = ctx["c16_results"].get(d[k])
+                if k == 0 or other is None:
+                    continue
+                if other != base:
+                    what = "Rotation_Matrix(alpha,3,axis)" if kind == "hist3" else "Spherical_Coordinates(r,theta,phi,axis)"
+                    out.append(dict(fail("prop", what + ": the result depends on the history of the axis object (same Size() and components, "
+                                         "different construction/Resize/Assign/copy history) instead of its three components only",
+                                         "history %d: %s  vs directly constructed: %s" % (k, other[:160], base[:160])),
+                                    req=d[k], impl=other))
+                    break
         elif kind == "hand":
             if len(d) < 2:
                 continue
